@@ -464,8 +464,34 @@ def ob_dispatch(_):
     return [res(name, PROVED, strength="proved-class", backend="structural")]
 
 
+def ob_compile_inputs(a):
+    """compile(), step 1: one qubit per argument bit, in argument and bit order, and input_symbols = exactly those names (compile_symbol's decision
+    'copy an input onto a new output qubit' reads it); shapes: 1-3 arguments of 1-3 bits"""
+    from qlasskit.ast2logic.typing import Arg
+    from qlasskit.compiler.internalcompiler import InternalCompiler
+    widths = a
+    name = f"C02.local.compile.inputs[arguments of {list(widths)} bits]"
+    args = []
+    for i, w in enumerate(widths):
+        nm = "abc"[i]
+        args.append(Arg(nm, bool, [nm] if w == 1 else [f"{nm}.{k}" for k in range(w)]))
+    flat = [b for x in args for b in x.bitvec]
+    comp = InternalCompiler()
+    try:
+        qc = comp.compile("f", args, None, [], uncompute=True)
+    except Exception as ex:  # noqa
+        return [res(name, REFUTED, strength="proved-class", backend="structural", replayed=False, detail=f"raises {type(ex).__name__}: {ex}"[:200], solver_output="raises")]
+    ok = list(comp.input_symbols) == flat and [qc.qubit_map.get(b) for b in flat] == list(range(len(flat))) and qc.num_qubits == len(flat) and not qc.gates
+    if not ok:
+        return [res(name, REFUTED, strength="proved-class", backend="structural", replayed=False, solver_output="structural",
+                    detail=f"input_symbols={list(comp.input_symbols)} qubit_map={dict(qc.qubit_map)} expected one qubit per bit of {flat} in order")]
+    return [res(name, PROVED, strength="proved-class", backend="structural")]
+
+
 def jobs(tier):
     js = []
+    for widths in ((1,), (2,), (1, 1), (2, 1), (1, 3), (2, 2, 1), (1, 1, 1)):
+        js.append((ob_compile_inputs, widths))
     placements = ["anc", "named", "sym"]
     for which in ("and", "or"):
         for ar in ((2, 3, 4) if which == "and" else (2,)):
